@@ -395,8 +395,13 @@ func writeReplay(e *Engine, o *Obl, path, repo string) bool {
 	var b strings.Builder
 	fmt.Fprintf(&b, "obligation: %s\nkind: %s\nfunction: %s\nat: %s\ngoal: %s\nresult: %s (solver %s, %.2fs)\nscript: %s\n", o.Name, o.Kind, o.Fn, o.Pos, o.Desc, o.Result, o.Solver, o.Secs, o.Script)
 	reproduced := false
-	if o.Result == "sat" && o.vc != nil {
-		model := parseModel(o.Out)
+	if (o.Result == "sat" || o.Model != "") && o.vc != nil {
+		src := o.Out
+		if o.Result != "sat" {
+			src = o.Model
+			b.WriteString("no solver verdict within the time limit; candidate counterexample found with quantified assumptions dropped (trusted only if the replay reproduces)\n")
+		}
+		model := parseModel(src)
 		ok, txt := tryReplay(e, o, model, repo, filepath.Dir(path))
 		b.WriteString(txt)
 		reproduced = ok
